@@ -552,6 +552,15 @@ fn fs_scenarios(ctx: &mut Ctx, funcs: &BTreeMap<String, Arc<Function>>, cfg: &Cf
         ("fs.write_to_file", vec![sv(&p(&long)), sv("x")], false, none()),
         ("fs.copy_file", vec![sv(&p("file.txt")), sv(&p("copy.txt"))], true, exists("copy.txt", true)),
         ("fs.copy_file", vec![sv(&p("missing.txt")), sv(&p("copy.txt"))], false, exists("copy.txt", false)),
+        // source and destination name the same path (spelled alike or not): what the operating system says still decides
+        ("fs.copy_file", vec![sv(&p("missing.txt")), sv(&p("missing.txt"))], false, exists("missing.txt", false)),
+        ("fs.copy_file", vec![sv(&p("dir_empty")), sv(&p("dir_empty"))], false, exists("dir_empty", true)),
+        ("fs.copy_file", vec![sv(&p("dir_nonempty/./missing.txt")), sv(&p("dir_nonempty/missing.txt"))], false, exists("dir_nonempty/missing.txt", false)),
+        ("fs.copy_file", vec![sv(&p("no_parent/a.txt")), sv(&p("no_parent/a.txt"))], false, none()),
+        ("fs.copy_file", vec![sv(""), sv("")], false, none()),
+        ("fs.rename", vec![sv(&p("missing.txt")), sv(&p("missing.txt"))], false, exists("missing.txt", false)),
+        ("fs.rename", vec![sv(&p("file.txt")), sv(&p("file.txt"))], true, Box::new(|r, _| (std::fs::read_to_string(r.join("file.txt")).ok().as_deref() != Some("hello")).then(|| "renaming a file onto itself changed it".to_string()))),
+        ("fs.rename", vec![sv(&p("no_parent/a")), sv(&p("no_parent/a"))], false, none()),
         ("fs.copy_file", vec![sv(&p("dir_empty")), sv(&p("copy.txt"))], false, none()),
         ("fs.copy_file", vec![sv(&p("file.txt")), sv(&p("dir_empty"))], false, none()),
         ("fs.copy_file", vec![sv(&p("file.txt")), sv(&p("no_parent/copy.txt"))], false, none()),
